@@ -837,7 +837,17 @@ pub fn gen_c09(r: &mut Rng, id: usize) -> Group {
     // the grouping key of every surviving row, observed through an extra selection is not possible
     // without changing the rows; the oracle recomputes keys from the ungrouped JSON rows when
     // nothing is selected, and otherwise checks count/containment.
+    // a third run observes the grouping key of every surviving row through a selection of its own (the key expression means
+    // the same as a selection: C13); with it the expected object follows from the rows alone
+    let mut keyed = twin.clone();
+    keyed.id = format!("{}-keys", g.cases[0].id);
+    if let Some(Some(key)) = &g.cases[0].spec.group {
+        keyed.spec.style = None;
+        keyed.spec.jstyle = None;
+        keyed.spec.selects.push(format!("{key}=__k"));
+    }
     g.cases.push(twin);
+    g.cases.push(keyed);
     g
 }
 
@@ -1772,6 +1782,14 @@ pub fn gen_c15(r: &mut Rng, id: usize) -> Group {
         if r.chance(20) {
             c.spec.esc.push("\n\\n".into());
         }
+        if r.chance(18) {
+            // the documented use of --escape-sequance: make the rows splittable again by escaping the separator itself (and the line
+            // breaks) in the data — here the separator is the comma
+            c.spec.isep = Some(",".into());
+            c.spec.esc = vec![",\\,".into(), "\n\\n".into(), "\r\\r".into(), "\\\\\\".into()];
+            c.spec.spre = None;
+            c.spec.spost = None;
+        }
         if r.chance(30) {
             c.spec.misskw = Some("N/A".into());
         }
@@ -2163,6 +2181,27 @@ pub fn gen_c19(r: &mut Rng, id: usize) -> Group {
         g.labels.push("kind:ints-text".into());
         return g;
     }
+    if r.chance(8) {
+        // the number-as-string sort: exact order of decimal strings in every spelling — zeros (any sign, any scale), values
+        // between 0 and 1, negatives, long operands —, ties in arrival order
+        let zeros = ["0", "0.0", "-0", "0e5", "0.000", "00"];
+        let small = ["0.5", "0.25", "1e-3", "5e-1", "0.001", "-0.5", "-1e-3", "1", "10", "-1", "9.99", "1e1"];
+        let n = r.range(2, 9);
+        let items: Vec<String> = (0..n).map(|_| match r.below(4) {
+            0 => r.pick(&zeros).to_string(),
+            1 | 2 => r.pick(&small).to_string(),
+            _ => crate::exprgen::gen_decimal(r),
+        }).collect();
+        let mut c = case(format!("C19-{id}-nas-sort"));
+        c.spec.selects.push(format!("({} . .)=s", r.ps(&["\"sort_by\"", "\"order_by\"", "sort_by_nas", "order_by_nas"])));
+        c.spec.selects.push("(sort_by_nas (map . (put {} \"k\" .)) .k)=t".into());
+        c.sources.push(stdin_src(format!("[{}]", items.iter().map(|x| format!("\"{x}\"")).collect::<Vec<_>>().join(",")).into_bytes()));
+        let mut g = Group::new(vec![c]);
+        g.tag = format!("nas-sort\u{1}{}", items.join("\u{2}"));
+        g.nontrivial = true;
+        g.labels.push("kind:nas-sort".into());
+        return g;
+    }
     if r.chance(50) {
         // boundary integers through non-arithmetic pipelines and collection functions
         let ints = value::boundary_ints();
@@ -2503,6 +2542,23 @@ pub fn oracle(prop: &str, g: &Group, obs: &[Obs]) -> Option<String> {
                     }
                     if seen > rows.len() {
                         return Some("more grouped rows than ungrouped rows".into());
+                    }
+                    // the keys, in first-seen order, and the size of every group, from the run that selects the key too
+                    if obs.len() > 2 && obs[2].res == "ok" && !c.spec.unique {
+                        let keyed = parse_rows(&obs[2].out, "\n").ok()?;
+                        let mut want: Vec<(String, usize)> = vec![];
+                        for row in &keyed {
+                            if let Some(V::Str(k)) = get_key(row, "__k") {
+                                match want.iter_mut().find(|(n, _)| n == k) {
+                                    Some(e) => e.1 += 1,
+                                    None => want.push((k.clone(), 1)),
+                                }
+                            }
+                        }
+                        let got: Vec<(String, usize)> = o.iter().map(|(k, v)| (k.clone(), if let V::Arr(a) = v { a.len() } else { 0 })).collect();
+                        if got != want && !c.spec.selects.iter().any(|s| s.ends_with("=__k")) {
+                            return Some(format!("the groups are {got:?}; the rows whose key is a string give, in first-seen order, {want:?}"));
+                        }
                     }
                 }
                 _ => return Some("collection has the wrong type".into()),
@@ -3107,6 +3163,31 @@ pub fn oracle(prop: &str, g: &Group, obs: &[Obs]) -> Option<String> {
             }
             None
         }
+        "C19" if g.tag.starts_with("nas-sort\u{1}") => {
+            let (c, o) = (&g.cases[0], &obs[0]);
+            if o.res != "ok" {
+                return Some(format!("{}: run gave {} {}", c.id, o.res, o.panic_msg));
+            }
+            let items: Vec<&str> = g.tag.split('\u{1}').nth(1).unwrap_or("").split('\u{2}').collect();
+            let decs: Option<Vec<crate::oracle_b::Dec>> = items.iter().map(|x| crate::oracle_b::Dec::parse(x)).collect();
+            let decs = decs?;
+            let mut idx: Vec<usize> = (0..items.len()).collect();
+            idx.sort_by(|a, b| crate::oracle_b::Dec::cmp(&decs[*a], &decs[*b]).unwrap_or(std::cmp::Ordering::Equal)); // stable
+            let want: Vec<String> = idx.iter().map(|i| items[*i].to_string()).collect();
+            let row = parse_rows(&o.out, "\n").ok()?.into_iter().next()?;
+            let got: Vec<String> = match get_key(&row, "s") { Some(V::Arr(a)) => a.iter().filter_map(|v| if let V::Str(s) = v { Some(s.clone()) } else { None }).collect(), _ => vec![] };
+            if got != want {
+                return Some(format!("{}: the number-as-string sort of {items:?} is {got:?}; by exact value, ties in arrival order, it is {want:?}", c.id));
+            }
+            let got_t: Vec<String> = match get_key(&row, "t") {
+                Some(V::Arr(a)) => a.iter().filter_map(|v| match get_key(v, "k") { Some(V::Str(s)) => Some(s.clone()), _ => None }).collect(),
+                _ => vec![],
+            };
+            if got_t != want {
+                return Some(format!("{}: sorting objects by their number-as-string member gives {got_t:?}, expected {want:?}", c.id));
+            }
+            None
+        }
         "C19" if g.tag == "ints-text" => {
             let (c, o) = (&g.cases[0], &obs[0]);
             if o.res != "ok" {
@@ -3136,6 +3217,25 @@ pub fn oracle(prop: &str, g: &Group, obs: &[Obs]) -> Option<String> {
                 }
             }
             None
+        }
+        "C15" if g.cases[0].spec.esc.first().map(|e| e == ",\\,").unwrap_or(false) => {
+            // separator and line breaks escaped in the data: every line is a row, and splitting it at the commas that are
+            // not preceded by a backslash gives exactly one field per selection
+            let (c, o) = (&g.cases[0], &obs[0]);
+            if o.res == "ok" && c.spec.rowsep.is_none() {
+                let n = c.spec.selects.len();
+                let text = String::from_utf8_lossy(&o.out).into_owned();
+                for (k, line) in text.split('\n').filter(|l| !l.is_empty()).enumerate() {
+                    let (mut fields, mut esc) = (1, false);
+                    for ch in line.chars() {
+                        if esc { esc = false; } else if ch == '\\' { esc = true; } else if ch == ',' { fields += 1; }
+                    }
+                    if fields != n {
+                        return Some(format!("{}: text row {k} has {fields} fields for {n} selections although the separator is escaped in the data: {:?}", c.id, line.chars().take(120).collect::<String>()));
+                    }
+                }
+            }
+            crate::oracle_b::oracle(prop, g, obs)
         }
         "C04" | "C05" | "C15" | "C19" | "C20" => crate::oracle_b::oracle(prop, g, obs),
         _ => None,
